@@ -1,6 +1,7 @@
 package main
 
 import (
+	"bytes"
 	"encoding/hex"
 	"fmt"
 
@@ -81,6 +82,7 @@ type Monitor struct {
 	timeoutMs uint64
 	// ghost state
 	ghostObsH            map[string]uint64 // chain -> external height of the last applied event (C13)
+	ghostConfs           map[string]map[string]bool // C08: tx key -> lower(external address) of every confirmation the message server accepted
 	loopMode             bool              // "world loop": executions happen on the ghost external chain, the hub only hears of them
 	loopTainted          bool              // an execution claim the ghost contracts could not have emitted: history is not truthful
 	ext                  *extWorld
@@ -325,6 +327,9 @@ func (m *Monitor) After(g *Gen, line, out string) {
 	}
 	if m.prop == "C14" {
 		w := strings.Fields(line)
+		if len(w) > 3 && w[0] == "vote" && out == "ok" {
+			m.checkC14Vote(g, w)
+		}
 		if len(w) > 0 && w[0] == "hash" {
 			if m.lastHash != "" && g.pair[0] != "" && m.lastHashOp != line {
 				if m.lastHash == out && !(admissibleEvent(m.lastHashOp) && admissibleEvent(line)) {
@@ -1214,6 +1219,18 @@ func (m *Monitor) checkC12(g *Gen, w []string, out string, b, a *snapshot) {
 						// a refund to another chain that cannot be created keeps the entry: guarded below
 						if s.refundChain == "hub" {
 							m.report(g, "expired-transfer-not-refunded", fmt.Sprintf("chain %s id %d", c, s.id))
+						} else if s.refundChain != "" {
+							// a transfer that came from another chain is refunded by a new transfer to the originating
+							// address; that can only fail when the asset has no counterpart on the originating chain
+							if t := m.tok(c, s.extToken); t != nil && m.tokByDenom(s.refundChain, t.denom) != nil {
+								cls := "expired-transfer-not-refunded"
+								if new(big.Int).Add(new(big.Int).Add(s.amount, s.fee), s.comm).Sign() == 0 {
+									// everything was lost to truncation when the entry was created (see the dust finding): the
+									// refund transfer of zero coins cannot be created, so the entry is kept and retried every block
+									cls = "zero-value-transfer-never-expires(decimals<18)"
+								}
+								m.report(g, cls, fmt.Sprintf("chain %s id %d (origin %s/%s)", c, s.id, s.refundChain, s.refundAddr))
+							}
 						}
 					}
 				} else if _, still := ap[s.id]; !still {
@@ -2278,6 +2295,8 @@ func (m *Monitor) checkC15(g *Gen, w []string, out string) {
 func diffGenesisSection(what []string, before, after string) []string {
 	sec := what[0]
 	switch sec {
+	case "tokens":
+		return []string{"token-list"}
 	case "pool":
 		return []string{"unbatched-pool"}
 	case "batches":
@@ -2434,6 +2453,21 @@ func admissibleEvent(line string) bool {
 
 func (m *Monitor) checkC08(g *Gen, w []string, out string, b, a *snapshot) {
 	ev := g.env.evm
+	if ev != nil && w[0] == "confirm" && out == "ok" && len(w) >= 7 && w[1] == ev.chain {
+		// ghost: the confirmations the message server accepted, per outgoing transaction
+		if m.ghostConfs == nil {
+			m.ghostConfs = map[string]map[string]bool{}
+		}
+		key, ext := setKey(u64(w[4])), w[5]
+		if w[3] != "set" {
+			key, ext = batchKey(w[4], u64(w[5])), w[6]
+		}
+		if m.ghostConfs[key] == nil {
+			m.ghostConfs[key] = map[string]bool{}
+		}
+		m.ghostConfs[key][strings.ToLower(ext)] = true
+		return
+	}
 	if ev == nil || w[0] != "world" || len(w) < 2 {
 		return
 	}
@@ -2469,6 +2503,30 @@ func (m *Monitor) checkC08(g *Gen, w []string, out string, b, a *snapshot) {
 		}
 		if r.kind == "batch" && r.accepted && !r.storedByHub {
 			m.report(g, "contract-executed-a-batch-the-hub-had-withdrawn", what)
+		}
+		// what the relayer can submit is what the hub's queries hand out: as long as the hub stores the
+		// transaction it must serve every confirmation it recorded for it (the contract's signer set is the
+		// one it last accepted, not the hub's current bonded set)
+		if r.storedByHub {
+			served := ev.confs[r.key]
+			var missing []string
+			for ext := range m.ghostConfs[r.key] {
+				if _, ok := served[ext]; !ok {
+					missing = append(missing, ext)
+				}
+			}
+			if len(missing) > 0 {
+				sort.Strings(missing)
+				lost := uint64(0)
+				for _, mem := range ev.cur {
+					for _, x := range missing {
+						if strings.ToLower(mem.addr.Hex()) == x {
+							lost += mem.power
+						}
+					}
+				}
+				m.report(g, "recorded-confirmation-not-served-to-the-relayer", fmt.Sprintf("%s: the hub recorded confirmations of %v but its query returns %d confirmations without them (power %d of the contract's current set withheld); %s", r.key, missing, len(served), lost, what))
+			}
 		}
 	}
 	if w[1] == "x:settle" {
@@ -2508,5 +2566,45 @@ func (m *Monitor) checkC08(g *Gen, w []string, out string, b, a *snapshot) {
 		if outflow.Cmp(paid) > 0 {
 			m.report(g, "contract-paid-more-than-the-executed-batches", fmt.Sprintf("net outflow %s, executed batches total %s", outflow, paid))
 		}
+	}
+}
+
+func u64(s string) uint64 { v, _ := strconv.ParseUint(s, 10, 64); return v }
+
+// checkC14Vote: an accepted vote is counted under the identifier of the very claim that was submitted — in the record
+// stored under (event nonce, claim id) — and in no record of another claim of that nonce; every record is stored under
+// the identifier of the event it holds.
+func (m *Monitor) checkC14Vote(g *Gen, w []string) {
+	ev, err := parseEvent(w[3:])
+	if err != nil {
+		return
+	}
+	chain, val := w[1], w[2]
+	_, orchVal, _ := m.keysOf(g, chain)
+	if v, ok := orchVal[val]; ok {
+		val = v
+	}
+	id := ev.Hash()
+	found := false
+	for _, r := range g.env.VoteRecords(g.env.ctx, chain) {
+		if !bytes.Equal(r.event.Hash(), r.hash) {
+			m.report(g, "record-stored-under-the-identifier-of-another-event", fmt.Sprintf("chain %s nonce %d key %x holds an event with identifier %x", chain, r.nonce, r.hash, r.event.Hash()))
+		}
+		if r.nonce != ev.GetEventNonce() {
+			continue
+		}
+		for _, v := range r.rec.Votes {
+			if g.env.toHexAcc(v) != val {
+				continue
+			}
+			if bytes.Equal(r.hash, id) {
+				found = true
+			} else {
+				m.report(g, "vote-tallied-with-a-different-event", fmt.Sprintf("chain %s nonce %d: validator %s submitted the claim %x (%v) and is counted in the record of claim %x", chain, r.nonce, val, id, w[3:], r.hash))
+			}
+		}
+	}
+	if !found {
+		m.report(g, "vote-not-counted-under-its-own-claim-identifier", fmt.Sprintf("chain %s nonce %d: validator %s submitted the claim %x (%v); no record under that identifier lists it", chain, ev.GetEventNonce(), val, id, w[3:]))
 	}
 }
